@@ -578,8 +578,14 @@ func writeEvidence(spec *propSpec, tier string, seed uint64, a *agg, wall float6
 		"wall_s":      wall, "violations": nviol,
 	}
 	b, _ := json.MarshalIndent(ev, "", " ")
-	os.MkdirAll(filepath.Join(verifRoot, "evidence"), 0o755)
-	if err := os.WriteFile(filepath.Join(verifRoot, "evidence", spec.ID+".json"), b, 0o644); err != nil {
+	evDir := filepath.Join(verifRoot, "evidence")
+	if d := os.Getenv("VERIF_EVIDENCE_DIR"); d != "" {
+		// sensitivity runs against deliberately broken trees must not overwrite
+		// the evidence of the registered checks
+		evDir = d
+	}
+	os.MkdirAll(evDir, 0o755)
+	if err := os.WriteFile(filepath.Join(evDir, spec.ID+".json"), b, 0o644); err != nil {
 		die2("write evidence: %v", err)
 	}
 }
